@@ -197,3 +197,43 @@ Definition binary_plus (x y : val) : outcome val :=
   | VTuple a, VTuple b => Ok (VTuple (a ++ b))
   | _, _ => Err
   end.
+
+(* ---- sorted / min / max (library.go sorted, sortSlice, minmax).
+   The keys are computed first (one Call of key per element, or the elements
+   themselves); here they are integers and the elements are represented by
+   their positions 0..n-1 in the argument.
+   sorted: sort.Stable(slice) with Less(i, j) = keys[i] < keys[j], or
+   sort.Stable(sort.Reverse(slice)), i.e. the same stable sort under the
+   flipped Less.  sort.Stable is a library oracle; by its documented meaning
+   ("keeping the original order of equal elements") it is modelled by the
+   reference stable sort, insertion from the right. *)
+Fixpoint sinsert (less : Z -> Z -> bool) (x : Z * nat) (s : list (Z * nat)) : list (Z * nat) :=
+  match s with
+  | [] => [x]
+  | y :: s' => if less (fst y) (fst x) then y :: sinsert less x s' else x :: s
+  end.
+Fixpoint stable_sort (less : Z -> Z -> bool) (l : list (Z * nat)) : list (Z * nat) :=
+  match l with
+  | [] => []
+  | x :: r => sinsert less x (stable_sort less r)
+  end.
+Definition sort_less (reverse : bool) : Z -> Z -> bool :=
+  if reverse then (fun a b => Z.ltb b a) else Z.ltb.
+Definition sorted_impl (reverse : bool) (keys : list Z) : list nat :=
+  map snd (stable_sort (sort_less reverse) (combine keys (seq 0 (length keys)))).
+
+(* minmax: extremum := first element; for each further x: if Compare(op, key(x), extremeKey) then
+   extremum, extremeKey = x, key(x)  -- op is GT for max and LT for min *)
+Fixpoint minmax_loop (is_max : bool) (l : list (Z * nat)) (ext : Z * nat) : nat :=
+  match l with
+  | [] => snd ext
+  | x :: r =>
+      if (if is_max then fst ext <? fst x else fst x <? fst ext)
+      then minmax_loop is_max r x
+      else minmax_loop is_max r ext
+  end.
+Definition minmax_impl (is_max : bool) (keys : list Z) : outcome nat :=
+  match combine keys (seq 0 (length keys)) with
+  | [] => Err                              (* "argument is an empty sequence" *)
+  | x :: r => Ok (minmax_loop is_max r x)
+  end.
